@@ -65,22 +65,18 @@ theorem createMergePatch_mixed (a b : Bytes) (ca cb : Cst)
 
 /-! ### which roots `createObject` accepts -/
 
-/-- a root `CreateMergePatch` can read as a map: an object, or `null` -/
-def okRoot (c : Cst) : Bool := c.isObj || c.isNullLit
+/-- a root `CreateMergePatch` can read as a map: an object (the text `null` decodes to a nil
+map and is rejected like every other non-object) -/
+def okRoot (c : Cst) : Bool := c.isObj
 
 theorem rootM_isSome_iff (c : Cst) : (rootM c.valueOf).isSome = okRoot c := by
   cases c with
   | lit l =>
-    simp only [Cst.valueOf, okRoot, Cst.isObj, Cst.isNullLit, Bool.false_or]
-    unfold Cst.litValue
-    split
-    · rename_i h; simp [rootM, h]
-    · rename_i h
-      have : (l == ascii "null") = false := by simpa using h
-      rw [this]
-      split
-      · rfl
-      · split <;> rfl
+    simp only [Cst.valueOf, okRoot, Cst.isObj]
+    have h := (litValue_not_container l).2.2
+    cases hv : Cst.litValue l with
+    | obj ms => exact absurd hv (h ms)
+    | _ => rfl
   | str b => rfl
   | arr xs => rfl
   | obj ms => rfl
